@@ -25,6 +25,7 @@ RULE = ("histories = sequences of 10-300 requests mixing 1.0 and 2.0 calls, noti
         "write trap on Config sees every attribute write (also transient ones); field snapshots before/after. "
         "distinct = distinct (configuration, replay mode, request) triples; non-trivial = the request was dispatchable "
         "or the reply was compared with the fresh-server reply.")
+RULE += (" " + 'Also: requests carrying class descriptors, as params and as ids that cannot be written back (with a directed form check on them and their batch neighbours), and calls whose result holds an object of a class unknown to the Config.')
 ASSUMPTIONS = [
     "replies contain no server-generated ids or times, so fresh-server replies are byte-comparable",
     "the version-form clause is judged for dispatchable requests; invalid entries are judged for independence only",
